@@ -1,0 +1,61 @@
+//go:build verif
+
+package pogreb
+
+// Contracts for the delete path: index.delete, the function literal DB.del hands to it, DB.del
+// (GoVC, see /verif/DESIGN.md). Comment-only file.
+
+// nothing of the log and of the files changed (two-state)
+//@ spec func logUnchanged(db *DB) bool = segmentsUntouched(db.datalog) && fData == old(fData) && fLen == old(fLen) && fDur == old(fDur) && hOpen == old(hOpen) && fidOf == old(fidOf) && dirFid == old(dirFid)
+// the index files and their wrappers are as before (two-state)
+//@ spec func indexWrappersUnchanged(db *DB) bool = db.index.main.size == old(db.index.main.size) && db.index.overflow.size == old(db.index.overflow.size) && db.index.main.File == old(db.index.main.File) && db.index.overflow.File == old(db.index.overflow.File) && hOpen[db.index.main.File] && hOpen[db.index.overflow.File] && fidOf[db.index.main.File] == old(fidOf[db.index.main.File]) && fidOf[db.index.overflow.File] == old(fidOf[db.index.overflow.File])
+//@ spec func fileUnchanged(f *file) bool = fData[fidOf[f.File]] == old(fData[fidOf[f.File]]) && fLen[fidOf[f.File]] == old(fLen[fidOf[f.File]]) && (fDur[fidOf[f.File]] == old(fDur[fidOf[f.File]]) || fDur[fidOf[f.File]] == fLen[fidOf[f.File]])
+//@ spec func indexFilesUnchanged(db *DB) bool = indexWrappersUnchanged(db) && fileUnchanged(db.index.main) && fileUnchanged(db.index.overflow)
+
+// what index.delete expects of its callback: truthful about the stored key; when it does not match it changes
+// nothing; when it matches it may count the deletion and append one delete record, and leaves the index files alone
+//@ func spec_matchKeyDel(sl slot) (match bool, err error) [C01,C03,C16]
+//@   flag funcspec
+//@   requires inv: theDB() != nil && dbFull(theDB()) && slotInSeg(theDB().datalog, sl)
+//@   ensures [C01,C16] truthful: err == nil ==> (match <==> old(keyOfSlotIs(theDB().datalog, sl, theKey())))
+//@   ensures nomatch-untouched: !match ==> unchanged()
+//@   ensures inv: err == nil ==> dbInv(theDB()) && idxLogDisjoint(theDB())
+//@   ensures index-wrappers-untouched: err == nil ==> indexWrappersUnchanged(theDB())
+//@   ensures index-main-untouched: err == nil ==> fileUnchanged(theDB().index.main)
+//@   ensures index-overflow-untouched: err == nil ==> fileUnchanged(theDB().index.overflow)
+//@   ensures kept: forall i int :: 0 <= i && i < 32767 && old(theDB().datalog.segments[i]) != nil ==> theDB().datalog.segments[i] == old(theDB().datalog.segments[i])
+//@   ensures [C03] sealed-untouched: err == nil ==> forall i int :: 0 <= i && i < 32767 && old(theDB().datalog.segments[i]) != nil && old(theDB().datalog.segments[i].meta.Full) ==> fLen[fidOf[theDB().datalog.segments[i].file.File]] == old(fLen[fidOf[theDB().datalog.segments[i].file.File]]) && fData[fidOf[theDB().datalog.segments[i].file.File]] == old(fData[fidOf[theDB().datalog.segments[i].file.File]])
+//@   modifies any(datalog).curSeg, any(datalog).segments, any(datalog).maxSequenceID, any(segmentMeta).Full, any(segmentMeta).PutRecords, any(segmentMeta).DeleteRecords, any(segmentMeta).DeletedKeys, any(segmentMeta).DeletedBytes, any(file).size, dirFid[theDB().opts.FileSystem], fLen, fDur, fData, hOpen, hPos, fidOf, fidName
+
+//@ func (db *DB) del$1(sl slot) (match bool, err error) [C01,C03,C16]
+//@   implements self spec_matchKeyDel
+//@   captured which: db == theDB() && key == theKey()
+
+// index.delete walks the whole chain; it stops at the first slot whose stored key is the key sought, removes that
+// slot from its bucket (later slots of the bucket move up) and writes the bucket back
+//@ func (idx *index) delete(hash uint32, matchKey matchKeyFunc) (err error) [C01,C03,C16]
+//@   implements matchKey spec_matchKeyDel
+//@   requires inv: theDB() != nil && idx == theDB().index && dbFull(theDB()) && idxInLog(theDB())
+//@   ensures inv-log: err == nil ==> dbInv(theDB())
+//@   ensures inv-idx: err == nil ==> idxFiles(idx) && idxLH(idx)
+//@   ensures inv-disjoint: err == nil ==> idxLogDisjoint(theDB())
+//@   ensures kept: forall i int :: 0 <= i && i < 32767 && old(theDB().datalog.segments[i]) != nil ==> theDB().datalog.segments[i] == old(theDB().datalog.segments[i])
+//@   at return: assert [C01] miss-only-at-chain-end: err == nil ==> it.off == 0 || old(keyOfSlotIs(theDB().datalog, sl, theKey()))
+//@   at call matchKey@1: cases which-file: b.file == idx.main || b.file == idx.overflow
+//@   at call matchKey@1: hint slot-on-disk: slotEncoded(fData[fidOf[b.file.File]], int(b.offset)+16*i, sl) && bucketAt(b.offset, b.file.size) && sl.offset != 0
+//@   at call matchKey@1: hint slot-position: slotPos(b.offset + 16*int64(i), b.file.size)
+//@   at call matchKey@1: hint slot-in-log: trig(b.offset + 16*int64(i)) && slotInSegAt(theDB().datalog, fData[fidOf[b.file.File]], b.offset + 16*int64(i))
+//@   modifies any(index).numKeys, any(datalog).curSeg, any(datalog).segments, any(datalog).maxSequenceID, any(segmentMeta).Full, any(segmentMeta).PutRecords, any(segmentMeta).DeleteRecords, any(segmentMeta).DeletedKeys, any(segmentMeta).DeletedBytes, any(file).size, dirFid[theDB().opts.FileSystem], fLen, fDur, fData, hOpen, hPos, fidOf, fidName
+//@   loop 1:
+//@     invariant idx == old(idx) && hash == old(hash) && it != nil && fresh(it) && it.overflow == idx.overflow
+//@     invariant it.off == 0 || (it.f == idx.main && bucketAt(it.off, idx.main.size)) || (it.f == idx.overflow && bucketAt(it.off, idx.overflow.size))
+//@     modifies it.off, it.f
+//@   loop 2:
+//@     invariant 0 <= i && i <= 31 && idx == old(idx) && hash == old(hash)
+//@     modifies nothing
+
+//@ func (db *DB) del(h uint32, key []byte, writeWAL bool) (err error) [C01,C03,C06,C16]
+//@   requires inv: db == theDB() && key == theKey() && dbFull(db) && idxInLog(db)
+//@   ensures inv: err == nil ==> dbInv(db)
+//@   ensures kept: forall i int :: 0 <= i && i < 32767 && old(db.datalog.segments[i]) != nil ==> db.datalog.segments[i] == old(db.datalog.segments[i])
+//@   modifies any(index).numKeys, any(datalog).curSeg, any(datalog).segments, any(datalog).maxSequenceID, any(segmentMeta).Full, any(segmentMeta).PutRecords, any(segmentMeta).DeleteRecords, any(segmentMeta).DeletedKeys, any(segmentMeta).DeletedBytes, any(file).size, dirFid[db.opts.FileSystem], fLen, fDur, fData, hOpen, hPos, fidOf, fidName
